@@ -266,7 +266,22 @@ func runPaillier(p, q int64, full bool, nprog int, seed uint64) {
 	shifts := []int64{0, 1, half, n - 1}
 	rnd := tr.PRand(seed, uint64(n))
 	// constructors and range checks
+	xstep := int64(1)
+	if n > 500 {
+		xstep = n/150 + 1 // larger moduli: a stride plus the neighbourhoods of the range ends
+	}
+	near := func(x int64) bool {
+		for _, c := range []int64{-n, -half, 0, half, n} {
+			if x >= c-3 && x <= c+3 {
+				return true
+			}
+		}
+		return false
+	}
 	for x := -n - 2; x <= n+2; x++ {
+		if (x+n+2)%xstep != 0 && !near(x) {
+			continue
+		}
 		e := map[string]any{"x": x}
 		safely("p.pt", e, func() {
 			s, err := paillier.NewPlaintextSymmetric(num.Z().FromInt64(x), c.N)
